@@ -398,8 +398,10 @@ func (stub *stub) Start(ctx context.Context) (retErr error) {
 		return fmt.Errorf("failed to multiplex ttrpc client connection: %w", err)
 	}
 
+	closedC := make(chan struct{})
 	clientOpts := []ttrpc.ClientOpts{
 		ttrpc.WithOnClose(func() {
+			close(closedC)
 			stub.connClosed()
 		}),
 	}
@@ -431,7 +433,13 @@ func (stub *stub) Start(ctx context.Context) (retErr error) {
 		return err
 	}
 
-	if err = <-stub.cfgErrC; err != nil {
+	// wait for getting configured, but not beyond the lifetime of the connection
+	select {
+	case err = <-stub.cfgErrC:
+	case <-closedC:
+		err = errors.New("connection to NRI/Runtime lost before the plugin got configured")
+	}
+	if err != nil {
 		return err
 	}
 
